@@ -411,8 +411,9 @@ def _state_machine_ok(b, B, rest, rsucc):
         if a[0] not in ("C", "M") or len(a[1]) != 1 or "&mut" in B.local_ty(a[1][0]) or B.local_ty(l) != "bool":
             return None
         return p
-    for l, vals in cands.items():
-        if not any(switch_on(blocks[x]["t"]) == l for x in rest):
+    # (the last candidate is "no state variable": only the results of the predicates are tracked - a scanner written with nested loops instead of a state machine)
+    for l, vals in list(cands.items()) + [(None, [0])]:
+        if l is not None and not any(switch_on(blocks[x]["t"]) == l for x in rest):
             continue
 
         def succs(node):
@@ -423,7 +424,7 @@ def _state_machine_ok(b, B, rest, rsucc):
             t = blocks[x]["t"]
             sl = switch_on(t)
             out = []
-            if sl == l:
+            if l is not None and sl == l:
                 tg = [tb for val, tb in t[2] if val == v] or [t[3]]
                 out = [(y, v, preds) for y in tg]
             elif sl is not None and predicate_of(sl):
